@@ -442,6 +442,13 @@ func partC(col *collector, scratch string, seed uint64, pops int) partResult {
 		in, calls := p.check(col, "", "", r.Outcomes)
 		r.Inputs += in
 		r.Calls += calls
+		in, calls, err = p.checkSelect(col, nil, nil, false, r.Outcomes)
+		if err != nil {
+			r.Err = fmt.Errorf("population %d: %w", k, err)
+			return r
+		}
+		r.Inputs += in
+		r.Calls += calls
 		shapes = append(shapes, p.Shape)
 		if k == 0 {
 			r.Samples = append(r.Samples, map[string]any{"part": "c", "bugs": short(p.Bugs), "identities": short(p.Idents), "comments": p.Comments, "sample_prefixes": p.commentPrefixes()[:10]})
@@ -461,6 +468,11 @@ func replayC(col *collector, scratch string, m map[string]any) error {
 		return err
 	}
 	defer p.cache.Close()
+	if str(m, "api") == "select.Resolve" {
+		sel := num(m, "selection")
+		_, _, err := p.checkSelect(col, &sel, strs(m, "args"), true, map[string]int{})
+		return err
+	}
 	p.check(col, str(m, "api"), str(m, "prefix"), map[string]int{})
 	return nil
 }
